@@ -226,6 +226,32 @@ def hasTOperand : OpExpr → Bool
   | .band a b | .bor a b => hasTOperand a || hasTOperand b
   | .inv a => hasTOperand a
 
+/-- an operator whose operands are all plain Python values (`~7`, `int | None`, `3 & 5`) is
+    resolved by Python's own types, not by glom: outside the modelled domain -/
+def opsOutside : OpExpr → Bool
+  | .leaf _ => false
+  | .band a b | .bor a b =>
+    opsOutside a || opsOutside b ||
+    (match build expectedBoolOps true a, build expectedBoolOps true b with
+     | .ok sa, .ok sb => (specMro sa).isEmpty && (specMro sb).isEmpty
+     | _, _ => false)
+  | .inv a =>
+    opsOutside a ||
+    (match build expectedBoolOps true a with
+     | .ok sa => (specMro sa).isEmpty
+     | _ => false)
+
+/-- `And(…, default=d) & x` / `Or(…, default=d) | x`: the flattening overload drops `d` -/
+def dropsDefault : OpExpr → Bool
+  | .leaf _ => false
+  | .band a b =>
+    dropsDefault a || dropsDefault b ||
+    (match build expectedBoolOps true a with | .ok (.and _ (some _)) => true | _ => false)
+  | .bor a b =>
+    dropsDefault a || dropsDefault b ||
+    (match build expectedBoolOps true a with | .ok (.or _ (some _)) => true | _ => false)
+  | .inv a => dropsDefault a
+
 def modelObs (s : Spec) (t : V) : Obs :=
   match ctorErr s with
   | some e => .ctor e.cls
@@ -241,6 +267,8 @@ def run (j : Json) : Except String Json := do
     let e ← opsOfJson oj
     if hasTOperand e then
       return Json.mkObj [("skip", true), ("why", "T expression as an operand of & | ~ (recorded by TType: C02)")]
+    if opsOutside e then
+      return Json.mkObj [("skip", true), ("why", "operator applied to plain Python values only")]
     let built := build genEnv.boolOps true e
     let mObs := match built with
       | .error x => Obs.ctor x.cls
@@ -253,7 +281,11 @@ def run (j : Json) : Except String Json := do
       | .ok s => s!"ops-{specHead s}:{verdictTag (denote ct s target).1}"
     return Json.mkObj [("agree", agree), ("holds", holds), ("model", obsToJson mObs), ("branch", tag),
       ("wf", WF genEnv),
-      ("model_holds", checkOps ct e target mObs)]
+      ("model_holds", checkOps ct e target mObs),
+      -- the implementation behaves exactly like the flattened constructor tree, which has lost a default
+      ("known", if !holds && agree && dropsDefault e &&
+          (match built with | .ok s => checkC10 ct s target implObs | .error _ => false)
+        then "ops_flatten_drops_default" else "")]
   else
     let s ← specOfJson (← j.getObjVal? "spec")
     let mObs := modelObs s target
